@@ -5,6 +5,7 @@ import (
 	"fmt"
 	"io"
 	"log"
+	"os"
 	"sort"
 	"strings"
 	"testing"
@@ -227,6 +228,161 @@ func genNt(t *rapid.T, n int, gaps bool) string {
 	return string(b[:n])
 }
 
+// genNames draws n distinct row names: plain s0..sn-1, or a hostile pool with case variants of
+// one name, names that are prefixes of each other and names holding a blank (all legal, distinct
+// names: every lookup by name must find exactly the row that carries it)
+func genNames(t *rapid.T, n int) []string {
+	out := make([]string, n)
+	if rapid.IntRange(0, 2).Draw(t, "plainnames") != 0 {
+		for i := range out {
+			out[i] = fmt.Sprintf("s%d", i)
+		}
+		return out
+	}
+	base := rapid.SampledFrom([]string{"HXB2", "Ref", "seq", "aB"}).Draw(t, "namebase")
+	pool := []string{base, strings.ToLower(base), strings.ToUpper(base), strings.ToUpper(base[:1]) + strings.ToLower(base[1:]),
+		base + "1", base + "10", base + "_1", base + " x", base + " X", strings.ToLower(base) + " x", base[:len(base)-1], "x" + base}
+	var distinct []string
+	seen := map[string]bool{}
+	for _, p := range pool {
+		if !seen[p] {
+			seen[p] = true
+			distinct = append(distinct, p)
+		}
+	}
+	perm := gen.Perm(t, len(distinct), "namepick")
+	for i := range out {
+		if i < len(distinct) {
+			out[i] = distinct[perm[i]]
+		} else {
+			out[i] = fmt.Sprintf("s%d", i)
+		}
+	}
+	return out
+}
+
+func hostileNames(rows []gen.Row) bool {
+	for i, r := range rows {
+		if r.Name != fmt.Sprintf("s%d", i) {
+			return true
+		}
+	}
+	return false
+}
+
+// drawPlan: one case in three gets its alignment through a drawn chain of public operations that
+// ends on exactly the content asked for (gen.DrawPlan); the others are freshly built
+func drawPlan(t *rapid.T, a gen.Ali, junk string) gen.Plan {
+	if len(a.Rows) == 0 || len(a.Rows) > 20 || a.Length() < 1 || rapid.IntRange(0, 2).Draw(t, "prov") != 0 {
+		return gen.Plan{}
+	}
+	return gen.DrawPlan(t, a, junk, 3)
+}
+
+func alphabetOf(a gen.Ali) int {
+	if a.Alphabet == "aa" {
+		return align.AMINOACIDS
+	}
+	return align.NUCLEOTIDS
+}
+
+// buildAli builds the alignment through its plan; a chain that does not end on the content (not
+// this property's business) is replaced by a fresh construction and counted
+func buildAli(a gen.Ali, p gen.Plan, o *pbt.Outcome) align.Alignment {
+	if len(p.Steps) == 0 {
+		return gen.MustBuild(a)
+	}
+	al, ok := gen.BuildVia(a, p)
+	if !ok || al.Alphabet() != alphabetOf(a) {
+		o.Class("provenance-unusable")
+		return gen.MustBuild(a)
+	}
+	for _, k := range p.Kinds() {
+		o.Class("provenance:%s", k)
+	}
+	return al
+}
+
+// bagPlan: the same idea for sequence sets (rows of different lengths): clone, read every way,
+// or names permuted along a cycle and renamed back
+type bagPlan struct {
+	Steps []string `json:"steps,omitempty"`
+	Cycle []int    `json:"cycle,omitempty"`
+}
+
+func drawBagPlan(t *rapid.T, rows []gen.Row) bagPlan {
+	var p bagPlan
+	if len(rows) == 0 || len(rows) > 20 || rapid.IntRange(0, 2).Draw(t, "bagprov") != 0 {
+		return p
+	}
+	distinct := map[string]bool{}
+	for _, r := range rows {
+		distinct[r.Name] = true
+	}
+	ns := rapid.IntRange(1, 3).Draw(t, "bagsteps")
+	for i := 0; i < ns; i++ {
+		k := rapid.SampledFrom([]string{"clone", "touch", "rename-cycle", "rename-cycle"}).Draw(t, "bagkind")
+		if k == "rename-cycle" {
+			if len(p.Cycle) > 0 || len(rows) < 2 || len(distinct) != len(rows) {
+				continue
+			}
+			p.Cycle = gen.Perm(t, len(rows), "cyclerows")[:rapid.IntRange(2, len(rows)).Draw(t, "cyclelen")]
+		}
+		p.Steps = append(p.Steps, k)
+	}
+	return p
+}
+
+func buildBag(a gen.Ali, p bagPlan, o *pbt.Outcome) align.SeqBag {
+	if len(p.Steps) == 0 {
+		return gen.BuildBag(a)
+	}
+	pre := append([]gen.Row{}, a.Rows...)
+	for i, r := range p.Cycle {
+		pre[r].Name = a.Rows[p.Cycle[(i+1)%len(p.Cycle)]].Name
+	}
+	var sb align.SeqBag = gen.BuildBag(gen.Ali{Rows: pre, Alphabet: a.Alphabet})
+	ok := true
+	for _, k := range p.Steps {
+		switch k {
+		case "clone":
+			c, e := sb.CloneSeqBag()
+			if e != nil {
+				ok = false
+			} else {
+				sb = c
+			}
+		case "touch":
+			for i := 0; i < sb.NbSequences(); i++ {
+				sb.GetSequenceById(i)
+				sb.GetSequenceCharById(i)
+				if n, in := sb.GetSequenceNameById(i); in {
+					sb.GetSequence(n)
+					sb.GetSequenceChar(n)
+				}
+			}
+			sb.IterateChar(func(name string, sequence []uint8) bool { return false })
+			_ = sb.Sequences()
+		case "rename-cycle":
+			m := map[string]string{}
+			for i := range pre {
+				if pre[i].Name != a.Rows[i].Name {
+					m[pre[i].Name] = a.Rows[i].Name
+				}
+			}
+			sb.Rename(m)
+		}
+	}
+	if !ok || !gen.SameRows(gen.Snapshot(sb), a.Rows) || sb.Alphabet() != alphabetOf(a) {
+		o.Class("provenance-unusable")
+		return gen.BuildBag(a)
+	}
+	for _, k := range p.Steps {
+		o.Class("provenance:%s", k)
+	}
+	return sb
+}
+
 func genLen(t *rapid.T, max int) int {
 	if rapid.IntRange(0, 7).Draw(t, "short") == 0 {
 		return rapid.IntRange(0, 6).Draw(t, "L")
@@ -334,11 +490,17 @@ func TestCodonsExhaustive(t *testing.T) {
 // ---- 2. sequences, sequence sets and alignments in every frame ---------------------------------
 
 type trCase struct {
-	Ali   gen.Ali `json:"ali"`
-	Kind  string  `json:"kind"`  // seq | bag | ali
-	Frame int     `json:"frame"` // 0,1,2; -1 = the three frames (bag only)
-	Code  string  `json:"code"`
+	Ali   gen.Ali  `json:"ali"`
+	Kind  string   `json:"kind"`  // seq | bag | ali
+	Frame int      `json:"frame"` // 0,1,2; -1 = the three frames
+	Code  string   `json:"code"`
+	Plan  gen.Plan `json:"plan"`    // provenance of the alignment (kind ali)
+	BPlan bagPlan  `json:"bagplan"` // provenance of the sequence set (kind bag)
 }
+
+// tall: more sequences than the initial capacity of a container (100) and around the next growth
+// points of its slice
+var tallCounts = []int{100, 101, 102, 127, 128, 129, 150, 255, 256, 257, 300}
 
 func genTr(t *rapid.T) trCase {
 	var c trCase
@@ -353,13 +515,35 @@ func genTr(t *rapid.T) trCase {
 		n = rapid.IntRange(1, 5).Draw(t, "rows")
 	}
 	l := genLen(t, 40)
+	tall := c.Kind != "seq" && rapid.IntRange(0, 11).Draw(t, "tall") == 0
+	if tall {
+		n = rapid.SampledFrom(tallCounts).Draw(t, "ntall")
+		l = rapid.IntRange(5, 9).Draw(t, "Ltall")
+	}
 	c.Ali.Alphabet = "nt"
 	for i := 0; i < n; i++ {
 		li := l
-		if c.Kind == "bag" && rapid.Bool().Draw(t, "ownlen") {
+		if c.Kind == "bag" && !tall && rapid.Bool().Draw(t, "ownlen") {
 			li = genLen(t, 40)
 		}
+		if tall {
+			// short rows, few draws: one of a handful of patterns, rotated
+			if i < 6 {
+				c.Ali.Rows = append(c.Ali.Rows, gen.Row{Name: fmt.Sprintf("s%d", i), Seq: genNt(t, li, true)})
+			} else {
+				src := c.Ali.Rows[rapid.IntRange(0, 5).Draw(t, "src")].Seq
+				k := rapid.IntRange(0, li-1).Draw(t, "rot")
+				c.Ali.Rows = append(c.Ali.Rows, gen.Row{Name: fmt.Sprintf("s%d", i), Seq: src[k:] + src[:k]})
+			}
+			continue
+		}
 		c.Ali.Rows = append(c.Ali.Rows, gen.Row{Name: fmt.Sprintf("s%d", i), Seq: genNt(t, li, true)})
+	}
+	switch c.Kind {
+	case "ali":
+		c.Plan = drawPlan(t, c.Ali, "ACGTN-")
+	case "bag":
+		c.BPlan = drawBagPlan(t, c.Ali.Rows)
 	}
 	return c
 }
@@ -400,13 +584,13 @@ func checkTr(c trCase) (o pbt.Outcome, err error) {
 			got = []gen.Row{{Name: tr.Name(), Seq: tr.Sequence()}}
 		}
 	case "bag":
-		sb := gen.BuildBag(c.Ali)
+		sb := buildBag(c.Ali, c.BPlan, &o)
 		e = sb.Translate(c.Frame, codeID(c.Code))
 		if e == nil {
 			got = gen.Snapshot(sb)
 		}
 	case "ali":
-		al := gen.MustBuild(c.Ali)
+		al := buildAli(c.Ali, c.Plan, &o)
 		e = al.Translate(c.Frame, codeID(c.Code))
 		if e == nil {
 			got = gen.Snapshot(al)
@@ -463,6 +647,9 @@ func checkTr(c trCase) (o pbt.Outcome, err error) {
 	o.Class("kind=%s", c.Kind)
 	o.Class("frame=%d", c.Frame)
 	o.Class("code=%s", c.Code)
+	if len(c.Ali.Rows) >= 100 {
+		o.Class("tall(>=100 sequences) kind=%s frame=%d", c.Kind, c.Frame)
+	}
 	if rem {
 		o.Class("length-not-multiple-of-3")
 	}
@@ -485,6 +672,45 @@ type caCase struct {
 	Order   []int     `json:"order"`   // order of the rows in the protein alignment
 	Extra   bool      `json:"extra"`   // the nucleotide set holds a sequence absent from the protein alignment
 	Code    string    `json:"code"`
+	PPlan   gen.Plan  `json:"protplan"` // provenance of the protein alignment
+	NPlan   bagPlan   `json:"ntplan"`   // provenance of the nucleotide set
+}
+
+// caOperands: the protein alignment (the model's translation of each row with the gaps of its
+// pattern, rows in c.Order) and the nucleotide set handed to CodonAlign
+func caOperands(c caCase) (prot, ntb gen.Ali, protOf, trimmed map[string]string, gapcol bool, err error) {
+	prot = gen.Ali{Alphabet: "aa"}
+	protOf = map[string]string{}
+	trimmed = map[string]string{}
+	for _, i := range c.Order {
+		r := c.Nt[i]
+		tr, ok := refTranslate(r.Seq, 0, c.Code)
+		if !ok {
+			return prot, ntb, nil, nil, false, fmt.Errorf("harness: nucleotide row shorter than 3")
+		}
+		var b []byte
+		k := 0
+		for _, ch := range []byte(c.Pattern[i]) {
+			if ch == 'x' {
+				b = append(b, tr[k])
+				k++
+			} else {
+				b = append(b, '-')
+				gapcol = true
+			}
+		}
+		if k != len(tr) {
+			return prot, ntb, nil, nil, false, fmt.Errorf("harness: pattern does not hold the translation")
+		}
+		prot.Rows = append(prot.Rows, gen.Row{Name: r.Name, Seq: string(b)})
+		protOf[r.Name] = string(b)
+		trimmed[r.Name] = r.Seq[:3*len(tr)]
+	}
+	ntb = gen.Ali{Alphabet: "nt", Rows: append([]gen.Row{}, c.Nt...)}
+	if c.Extra {
+		ntb.Rows = append(ntb.Rows, gen.Row{Name: "absent", Seq: "ACGTACGTA"})
+	}
+	return
 }
 
 func genCA(t *rapid.T) caCase {
@@ -505,9 +731,10 @@ func genCA(t *rapid.T) caCase {
 		}
 	}
 	p := maxk + rapid.IntRange(0, 4).Draw(t, "morecols")
+	names := genNames(t, n)
 	for i := 0; i < n; i++ {
 		r := rapid.IntRange(0, 2).Draw(t, "r")
-		c.Nt = append(c.Nt, gen.Row{Name: fmt.Sprintf("s%d", i), Seq: genNt(t, 3*ks[i]+r, false)})
+		c.Nt = append(c.Nt, gen.Row{Name: names[i], Seq: genNt(t, 3*ks[i]+r, false)})
 		// choose which of the p columns hold the ks[i] residues
 		pat := []byte(strings.Repeat("-", p))
 		perm := gen.Perm(t, p, "col")
@@ -518,45 +745,20 @@ func genCA(t *rapid.T) caCase {
 	}
 	c.Order = gen.Perm(t, n, "order")
 	c.Extra = rapid.IntRange(0, 3).Draw(t, "extra") == 0
+	if prot, ntb, _, _, _, e := caOperands(c); e == nil {
+		c.PPlan = drawPlan(t, prot, gen.AA20)
+		c.NPlan = drawBagPlan(t, ntb.Rows)
+	}
 	return c
 }
 
 func checkCA(c caCase) (o pbt.Outcome, err error) {
-	// the protein alignment: the model's translation of each row with the gaps of its pattern
-	prot := gen.Ali{Alphabet: "aa"}
-	protOf := map[string]string{}
-	trimmed := map[string]string{}
-	gapcol := false
-	for _, i := range c.Order {
-		r := c.Nt[i]
-		tr, ok := refTranslate(r.Seq, 0, c.Code)
-		if !ok {
-			return o, fmt.Errorf("harness: nucleotide row shorter than 3")
-		}
-		var b []byte
-		k := 0
-		for _, ch := range []byte(c.Pattern[i]) {
-			if ch == 'x' {
-				b = append(b, tr[k])
-				k++
-			} else {
-				b = append(b, '-')
-				gapcol = true
-			}
-		}
-		if k != len(tr) {
-			return o, fmt.Errorf("harness: pattern does not hold the translation")
-		}
-		prot.Rows = append(prot.Rows, gen.Row{Name: r.Name, Seq: string(b)})
-		protOf[r.Name] = string(b)
-		trimmed[r.Name] = r.Seq[:3*len(tr)]
+	prot, ntb, protOf, trimmed, gapcol, herr := caOperands(c)
+	if herr != nil {
+		return o, herr
 	}
-	pa := gen.MustBuild(prot)
-	ntb := gen.Ali{Alphabet: "nt", Rows: append([]gen.Row{}, c.Nt...)}
-	if c.Extra {
-		ntb.Rows = append(ntb.Rows, gen.Row{Name: "absent", Seq: "ACGTACGTA"})
-	}
-	nts := gen.BuildBag(ntb)
+	pa := buildAli(prot, c.PPlan, &o)
+	nts := buildBag(ntb, c.NPlan, &o)
 	res, e := pa.CodonAlign(nts)
 	if e != nil {
 		return o, fmt.Errorf("CodonAlign fails on sequences and the protein alignment of their own translations: %v", e)
@@ -599,6 +801,9 @@ func checkCA(c caCase) (o pbt.Outcome, err error) {
 		rem = rem || len(r.Seq)%3 != 0
 	}
 	o.NonTrivial = gapcol
+	if hostileNames(c.Nt) {
+		o.Class("names: case variants / prefixes / blanks")
+	}
 	o.Class("gap-columns=%v", gapcol)
 	o.Class("trailing-bases=%v", rem)
 	o.Class("code=%s", c.Code)
@@ -610,11 +815,12 @@ func TestCodonAlign(t *testing.T) { pbt.Run(t, genCA, checkCA) }
 // ---- 4. reference guided translation -----------------------------------------------------------
 
 type refCase struct {
-	Ali    gen.Ali `json:"ali"`
-	Ref    string  `json:"ref"`
-	Frame  int     `json:"frame"`
-	Code   string  `json:"code"`
-	Gapped bool    `json:"gapped"`
+	Ali    gen.Ali  `json:"ali"`
+	Ref    string   `json:"ref"`
+	Frame  int      `json:"frame"`
+	Code   string   `json:"code"`
+	Gapped bool     `json:"gapped"`
+	Plan   gen.Plan `json:"plan"`
 }
 
 // gappedRow: an ungapped sequence with gap runs inserted, or fully random
@@ -740,19 +946,22 @@ func genRef(t *rapid.T) refCase {
 	n := rapid.IntRange(1, 5).Draw(t, "rows")
 	l := genLen(t, 36)
 	c.Ali.Alphabet = "nt"
+	names := genNames(t, n)
 	if c.Gapped {
 		rows, ref := genGappedRows(t, n, l)
 		for i, s := range rows {
-			c.Ali.Rows = append(c.Ali.Rows, gen.Row{Name: fmt.Sprintf("s%d", i), Seq: s})
+			c.Ali.Rows = append(c.Ali.Rows, gen.Row{Name: names[i], Seq: s})
 		}
 		c.Ref = c.Ali.Rows[ref].Name
+		c.Plan = drawPlan(t, c.Ali, "ACGTN-")
 		return c
 	}
 	for i := 0; i < n; i++ {
-		c.Ali.Rows = append(c.Ali.Rows, gen.Row{Name: fmt.Sprintf("s%d", i), Seq: genNt(t, l, false)})
+		c.Ali.Rows = append(c.Ali.Rows, gen.Row{Name: names[i], Seq: genNt(t, l, false)})
 	}
 	c.Frame = rapid.IntRange(0, 2).Draw(t, "frame")
 	c.Ref = c.Ali.Rows[rapid.IntRange(0, n-1).Draw(t, "ref")].Name
+	c.Plan = drawPlan(t, c.Ali, "ACGTN")
 	return c
 }
 
@@ -858,7 +1067,7 @@ func judgeRef(c refCase, got []gen.Row, e error, o *pbt.Outcome) error {
 }
 
 func checkRef(c refCase) (o pbt.Outcome, err error) {
-	al := gen.MustBuild(c.Ali)
+	al := buildAli(c.Ali, c.Plan, &o)
 	e := al.TranslateByReference(c.Frame, codeID(c.Code), c.Ref)
 	var got []gen.Row
 	if e == nil {
@@ -871,6 +1080,9 @@ func checkRef(c refCase) (o pbt.Outcome, err error) {
 		return o, err
 	}
 	o.Class("code=%s", c.Code)
+	if hostileNames(c.Ali.Rows) {
+		o.Class("names: case variants / prefixes / blanks")
+	}
 	return o, nil
 }
 
@@ -883,6 +1095,27 @@ type cliCase struct {
 	Tr   trCase  `json:"tr"`
 	Ref  refCase `json:"ref"`
 	CA   caCase  `json:"ca"`
+	// presentation of the input files, and where the result goes: stdout, a new file (-o) or an
+	// existing file with longer stale content
+	Layout cli.Layout `json:"layout"`
+	Out    string     `json:"out"`
+}
+
+// runOut runs goalign with its result sent to stdout or to a (new or stale) -o file and returns
+// the text of the result
+func runOut(dir string, out string, args ...string) (string, cli.Result) {
+	if out == "" || out == "stdout" {
+		r := cli.Run("", args...)
+		return r.Stdout, r
+	}
+	path := cli.TempFile(dir, ".out", "")
+	os.Remove(path)
+	if out == "stale" {
+		cli.StaleFile(path, 40)
+	}
+	r := cli.Run("", append(args, "-o", path)...)
+	b, _ := os.ReadFile(path)
+	return string(b), r
 }
 
 // the command line reads FASTA and detects the alphabet: keep at least one unambiguous
@@ -899,6 +1132,8 @@ func TestCLI(t *testing.T) {
 	pbt.Run(t, func(t *rapid.T) cliCase {
 		var c cliCase
 		c.Mode = rapid.SampledFrom([]string{"translate", "unaligned", "refseq", "codonalign"}).Draw(t, "mode")
+		c.Layout = cli.DrawLayout(t)
+		c.Out = rapid.SampledFrom([]string{"stdout", "stdout", "new", "stale"}).Draw(t, "out")
 		code := rapid.SampledFrom(codeNames).Draw(t, "code")
 		switch c.Mode {
 		case "translate", "unaligned":
@@ -913,10 +1148,19 @@ func TestCLI(t *testing.T) {
 			}
 			n := rapid.IntRange(1, 4).Draw(t, "rows")
 			l := cliLen(t)
+			tall := rapid.IntRange(0, 14).Draw(t, "tall") == 0
+			if tall {
+				n = rapid.SampledFrom(tallCounts).Draw(t, "ntall")
+				l = rapid.IntRange(5, 8).Draw(t, "Ltall")
+			}
 			c.Tr.Ali.Alphabet = "nt"
 			for i := 0; i < n; i++ {
 				li := l
-				if c.Mode == "unaligned" && rapid.Bool().Draw(t, "own") {
+				if tall && i >= 4 {
+					c.Tr.Ali.Rows = append(c.Tr.Ali.Rows, gen.Row{Name: fmt.Sprintf("s%d", i), Seq: c.Tr.Ali.Rows[i%4].Seq})
+					continue
+				}
+				if c.Mode == "unaligned" && !tall && rapid.Bool().Draw(t, "own") {
 					li = cliLen(t)
 				}
 				c.Tr.Ali.Rows = append(c.Tr.Ali.Rows, gen.Row{Name: fmt.Sprintf("s%d", i), Seq: genNt(t, li, true)})
@@ -927,15 +1171,16 @@ func TestCLI(t *testing.T) {
 			n := rapid.IntRange(1, 4).Draw(t, "rows")
 			l := rapid.SampledFrom([]int{3, 4, 5, 6, 7, 10, 20, 33, 182}).Draw(t, "L")
 			c.Ref.Ali.Alphabet = "nt"
+			names := genNames(t, n)
 			if c.Ref.Gapped {
 				rows, ref := genGappedRows(t, n, l)
 				for i, s := range rows {
-					c.Ref.Ali.Rows = append(c.Ref.Ali.Rows, gen.Row{Name: fmt.Sprintf("s%d", i), Seq: s})
+					c.Ref.Ali.Rows = append(c.Ref.Ali.Rows, gen.Row{Name: names[i], Seq: s})
 				}
 				c.Ref.Ref = c.Ref.Ali.Rows[ref].Name
 			} else {
 				for i := 0; i < n; i++ {
-					c.Ref.Ali.Rows = append(c.Ref.Ali.Rows, gen.Row{Name: fmt.Sprintf("s%d", i), Seq: genNt(t, l, false)})
+					c.Ref.Ali.Rows = append(c.Ref.Ali.Rows, gen.Row{Name: names[i], Seq: genNt(t, l, false)})
 				}
 				c.Ref.Frame = rapid.IntRange(0, 2).Draw(t, "frame")
 				c.Ref.Ref = c.Ref.Ali.Rows[rapid.IntRange(0, n-1).Draw(t, "ref")].Name
@@ -957,15 +1202,22 @@ func TestCLI(t *testing.T) {
 		return c
 	}, func(c cliCase) (o pbt.Outcome, err error) {
 		o.Class("mode=%s", c.Mode)
+		o.Class("output=%s", c.Out)
+		if !c.Layout.Plain() {
+			o.Class("input-layout-not-plain")
+		}
 		switch c.Mode {
 		case "translate", "unaligned":
-			in := cli.TempFile(dir, ".fa", cli.Fasta(c.Tr.Ali.Rows))
+			in := cli.TempFile(dir, ".fa", cli.FastaLayout(c.Tr.Ali.Rows, c.Layout))
 			args := []string{"translate", "-i", in, "--phase", fmt.Sprint(c.Tr.Frame), "--genetic-code", c.Tr.Code}
 			if c.Mode == "unaligned" {
 				args = append(args, "--unaligned")
 			}
 			want, ok := wantRows(c.Tr.Ali.Rows, c.Tr.Frame, c.Tr.Code)
-			r := cli.Run("", args...)
+			stdout, r := runOut(dir, c.Out, args...)
+			if len(c.Tr.Ali.Rows) >= 100 {
+				o.Class("tall(>=100 sequences) phase=%d", c.Tr.Frame)
+			}
 			if !ok {
 				if r.Exit == 0 {
 					return o, fmt.Errorf("goalign %v: exit 0 although a sequence gives no residue; stdout %q", args, r.Stdout)
@@ -976,7 +1228,7 @@ func TestCLI(t *testing.T) {
 			if r.Exit != 0 {
 				return o, fmt.Errorf("goalign %v: exit %d, stderr %q", args, r.Exit, firstLine(r.Stderr))
 			}
-			got, perr := cli.ParseFasta(r.Stdout)
+			got, perr := cli.ParseFasta(stdout)
 			if perr != nil {
 				return o, fmt.Errorf("goalign %v: unreadable output: %v", args, perr)
 			}
@@ -991,21 +1243,24 @@ func TestCLI(t *testing.T) {
 			o.Class("phase=%d", c.Tr.Frame)
 			o.Class("code=%s", c.Tr.Code)
 		case "refseq":
-			in := cli.TempFile(dir, ".fa", cli.Fasta(c.Ref.Ali.Rows))
+			in := cli.TempFile(dir, ".fa", cli.FastaLayout(c.Ref.Ali.Rows, c.Layout))
 			args := []string{"translate", "-i", in, "--phase", fmt.Sprint(c.Ref.Frame), "--genetic-code", c.Ref.Code, "--ref-seq", c.Ref.Ref}
-			r := cli.Run("", args...)
+			stdout, r := runOut(dir, c.Out, args...)
 			var e error
 			var got []gen.Row
 			if r.Exit != 0 {
 				e = fmt.Errorf("exit %d: %s", r.Exit, firstLine(r.Stderr))
 			} else {
 				var perr error
-				if got, perr = cli.ParseFasta(r.Stdout); perr != nil {
+				if got, perr = cli.ParseFasta(stdout); perr != nil {
 					return o, fmt.Errorf("goalign %v: unreadable output: %v", args, perr)
 				}
 			}
 			if err = judgeRef(c.Ref, got, e, &o); err != nil {
 				return o, fmt.Errorf("goalign %v: %v", args, err)
+			}
+			if hostileNames(c.Ref.Ali.Rows) {
+				o.Class("names: case variants / prefixes / blanks")
 			}
 		case "codonalign":
 			var prot []gen.Row
@@ -1034,14 +1289,14 @@ func TestCLI(t *testing.T) {
 			if c.CA.Extra {
 				nt = append(nt, gen.Row{Name: "absent", Seq: "ACGTACGTA"})
 			}
-			pf := cli.TempFile(dir, ".aa.fa", cli.Fasta(prot))
-			nf := cli.TempFile(dir, ".nt.fa", cli.Fasta(nt))
+			pf := cli.TempFile(dir, ".aa.fa", cli.FastaLayout(prot, c.Layout))
+			nf := cli.TempFile(dir, ".nt.fa", cli.FastaLayout(nt, c.Layout))
 			args := []string{"codonalign", "-i", pf, "-f", nf}
-			r := cli.Run("", args...)
+			stdout, r := runOut(dir, c.Out, args...)
 			if r.Exit != 0 {
 				return o, fmt.Errorf("goalign %v: exit %d, stderr %q\nprotein: %s\nnt: %s", args, r.Exit, firstLine(r.Stderr), gen.Show(prot), gen.Show(nt))
 			}
-			got, perr := cli.ParseFasta(r.Stdout)
+			got, perr := cli.ParseFasta(stdout)
 			if perr != nil {
 				return o, fmt.Errorf("goalign %v: unreadable output: %v", args, perr)
 			}
@@ -1061,7 +1316,7 @@ func TestCLI(t *testing.T) {
 				}
 			}
 			// and back through goalign translate
-			cf := cli.TempFile(dir, ".codon.fa", r.Stdout)
+			cf := cli.TempFile(dir, ".codon.fa", stdout)
 			args2 := []string{"translate", "-i", cf, "--genetic-code", c.CA.Code}
 			r2 := cli.Run("", args2...)
 			if r2.Exit != 0 {
